@@ -94,7 +94,7 @@ pub fn gen_tail(t: &mut Tape) -> Vec<Tok> {
 pub fn gen_exh_expr(t: &mut Tape) -> Expr {
     let mut cfg = GenCfg::default();
     cfg.max_toks = 6;
-    cfg.max_depth = 3;
+    cfg.max_depth = if t.chance(40) { 3 } else { 2 };
     cfg.noise_flags = 0;
     cfg.ci = 0;
     cfg.allow_rooted = true;
@@ -334,25 +334,74 @@ pub fn classify_exh(exprs: &[Expr], pat: &Pat, p: &str, d: &str, property: &str)
             }
         }
     }
-    // F-EXH-BRANCH: a branch in the scanned tail whose own tail is bounded text (`<{a,b}/>`,
-    // `<<?a>/>*`) contributes a zero term and is then treated as if it were open.  Predicted: the
-    // descendant matches once those branches are widened to `*`.
-    if crate::findings::is_open("F-EXH-BRANCH", property) {
-        let widened: Vec<Expr> = exprs.iter().map(|e| widen_tail(&strip_flags(e))).collect();
-        let changed = widened.iter().zip(exprs.iter()).any(|(w, e)| *w != strip_flags(e));
-        if changed && widened.iter().any(|w| crate::refmatch::lenient_match_with(w, d, Default::default())) {
-            return Some("F-EXH-BRANCH");
+    // The remaining three findings are judged together, because they combine: the descendant is
+    // tried as is, with a trailing separator (F-EXH-TRAILSEP), extended by 1-8 further components
+    // (F-EXH-MULTIPLE), and each of those against the pattern itself and against the pattern with
+    // bounded nested tails widened to `*` (F-EXH-BRANCH, reference matcher in lenient mode).
+    let trail = crate::findings::is_open("F-EXH-TRAILSEP", property) && exprs.iter().any(trailsep_trigger);
+    let multi = crate::findings::is_open("F-EXH-MULTIPLE", property) && exprs.iter().any(multiple_trigger);
+    let widened: Vec<Expr> = exprs.iter().map(|e| widen_tail(&strip_flags(e))).collect();
+    let branch = crate::findings::is_open("F-EXH-BRANCH", property)
+        && widened.iter().zip(exprs.iter()).any(|(w, e)| *w != strip_flags(e));
+    let mut targets: Vec<(String, bool, bool)> = vec![(d.to_string(), false, false)];
+    if multi {
+        let last = d.rsplit('/').next().unwrap_or("a");
+        for name in [last, "a", "aa", "x"] {
+            let mut ext = d.to_string();
+            for _ in 0..8 {
+                ext.push('/');
+                ext.push_str(name);
+                targets.push((ext.clone(), false, true));
+            }
         }
     }
-    // F-EXH-TRAILSEP: the pattern ends in a repetition whose unfoldings end in a separator; wax
-    // reasons about `x/`-terminated text, so the descendant *with a trailing separator* matches
-    if crate::findings::is_open("F-EXH-TRAILSEP", property)
-        && exprs.iter().any(trailsep_trigger)
-        && pat.is_match(&format!("{}/", d))
-    {
-        return Some("F-EXH-TRAILSEP");
+    if trail {
+        let more: Vec<(String, bool, bool)> = targets.iter().map(|(t, _, m)| (format!("{}/", t), true, *m)).collect();
+        targets.extend(more);
+    }
+    let nested_trigger = crate::findings::is_open("F-EXH-NESTED", property) && exprs.iter().any(nested_trigger);
+    // single causes first
+    let mut order: Vec<usize> = (0..targets.len()).collect();
+    order.sort_by_key(|i| (targets[*i].1 as u8 + targets[*i].2 as u8, *i));
+    for widen in [false, true] {
+        if widen && !branch {
+            continue;
+        }
+        for i in &order {
+            let (t, used_trail, used_multi) = &targets[*i];
+            if !widen && !used_trail && !used_multi {
+                continue; // that is the violation itself
+            }
+            let m = if widen {
+                widened.iter().any(|w| crate::refmatch::lenient_match_with(w, t, crate::refmatch::Quirks { root_tree: true }))
+            }
+            else {
+                pat.is_match(t)
+            };
+            if m {
+                return Some(if widen {
+                    "F-EXH-BRANCH"
+                }
+                else if *used_multi {
+                    "F-EXH-MULTIPLE"
+                }
+                else {
+                    "F-EXH-TRAILSEP"
+                });
+            }
+        }
+    }
+    // F-EXH-NESTED: residual family — the same depth-only reasoning in expressions nested three or
+    // more levels deep; no behavioural prediction is attempted there (trigger only)
+    if nested_trigger {
+        return Some("F-EXH-NESTED");
     }
     None
+}
+
+/// F-EXH-NESTED trigger: an unbounded repetition and tokens nested three or more levels deep.
+pub fn nested_trigger(e: &Expr) -> bool {
+    max_depth(e) >= 3 && any_tok(e, &|t, _| matches!(t, Tok::Rep { hi: None, .. }))
 }
 
 /// F-EXH-TRAILSEP trigger: the last top-level token is a repetition every unfolding of which
@@ -361,7 +410,7 @@ pub fn trailsep_trigger(e: &Expr) -> bool {
     fn ends(e: &Expr) -> bool {
         match e.last() {
             Some(Tok::Sep) => true,
-            Some(Tok::Alt(bs)) => bs.iter().all(ends),
+            Some(Tok::Alt(bs)) => bs.iter().any(ends),
             Some(Tok::Rep { body, .. }) => ends(body),
             _ => false,
         }
@@ -431,6 +480,12 @@ pub fn widen_tail(e: &Expr) -> Expr {
                         _ => unreachable!(),
                     };
                     if !open_tok(t) {
+                        // a nested concatenation whose scan ends at a bounded branch without
+                        // having seen unbounded depth yields a zero term, like one that ends at a
+                        // bounded leaf
+                        if nested && i > 0 && !e[i..].iter().any(unbounded_depth) {
+                            return vec![Tok::Zom { lazy: false }];
+                        }
                         // the scan stops after this branch.  In a repetition body whose scanned
                         // part keeps a may-be-exhaustive sum, the unscanned head is ignored and
                         // the repetition then multiplies the whole body: the head acts like `*`
@@ -461,4 +516,31 @@ pub fn widen_tail(e: &Expr) -> Expr {
         out
     }
     go(e, false, false)
+}
+
+/// F-EXH-MULTIPLE trigger: a repetition that may iterate more than once whose body can span two
+/// or more components in one iteration and has variant depth (an alternation or a ranged
+/// repetition inside the body).
+pub fn multiple_trigger(e: &Expr) -> bool {
+    fn boundaries(e: &Expr) -> usize {
+        e.iter()
+            .map(|t| match t {
+                Tok::Sep | Tok::Tree { .. } => 1,
+                Tok::Alt(bs) => bs.iter().map(boundaries).max().unwrap_or(0),
+                Tok::Rep { body, lo, hi, .. } => boundaries(body) * hi.unwrap_or((*lo).max(1) + 1).max(1),
+                _ => 0,
+            })
+            .sum()
+    }
+    fn variant(e: &Expr) -> bool {
+        any_tok(e, &|t, _| match t {
+            Tok::Alt(_) => true,
+            Tok::Rep { lo, hi, .. } => *hi != Some(*lo),
+            _ => false,
+        })
+    }
+    any_tok(e, &|t, _| match t {
+        Tok::Rep { body, hi, .. } => *hi != Some(1) && boundaries(body) >= 2 && variant(body),
+        _ => false,
+    })
 }
